@@ -69,13 +69,17 @@ def run_kani(harnesses, scratch, repo, log, jobs=8, per_harness_timeout='30m', l
             res.setdefault('undecided', []).append({'unit': label, 'function': h, 'kind': 'kani timeout'})
         elif bad:
             # counterexample
-            rc2, out2 = _run(['cargo', 'kani', '-Z', 'stubbing', '-Z', 'function-contracts', '-Z', 'concrete-playback',
-                              '--concrete-playback=print', '--harness', h], d, env, 3600)
+            # counterexample by concrete playback: only for the first failing harness (it re-runs the solver), time-boxed
+            if len(res['failures']) == 0:
+                rc2, out2 = _run(['cargo', 'kani', '-Z', 'stubbing', '-Z', 'function-contracts', '-Z', 'concrete-playback',
+                                  '--concrete-playback=print', '--harness', h], d, env, 1200)
+            else:
+                out2 = out
             cex = ''
             mm = re.search(r'Concrete playback unit test for[^\n]*\n(.*?)(?:\nINFO:|\nManual Harness Summary|\Z)', out2, flags=re.S)
             if mm:
                 cex = mm.group(1)[:4000]
-            failedchecks = re.findall(r'Failed Checks: ([^\n]*)', out2)
+            failedchecks = re.findall(r'Failed Checks: ([^\n]*)', out2) or re.findall(r'Failed Checks: ([^\n]*)', out)
             res['failures'].append({'unit': label, 'function': h, 'kind': 'kani: ' + '; '.join(failedchecks[:3]),
                                     'clause': '; '.join(failedchecks[:3]), 'rendered': out2[-2500:], 'counterexample': cex or None,
                                     'backend': 'kani', 'tags': []})
